@@ -807,7 +807,9 @@ impl<'a> Checker<'a>
         self.gc_pending_deadline = false;
         // a collection keeps going until nothing is left to collect: reactors released by what it despawned go too
         let before = std::mem::take(&mut self.gc_before);
-        for (i, t) in self.insts.iter_mut().enumerate() { if t.doomed && t.alive && !t.busy { t.alive = false; if !before.get(i).copied().unwrap_or(true) { t.chain_doomed = true; } } }
+        // (a reactor released *during* the pass -- by an entity the pass despawned -- may go with this pass or with the next one:
+        // "the first garbage collection after" its last trigger disappeared is the next one)
+        for (i, t) in self.insts.iter_mut().enumerate() { if t.doomed && t.alive && !t.busy && before.get(i).copied().unwrap_or(true) { t.alive = false; } }
         for e in std::mem::take(&mut self.gc_must)
         {
             if self.ents[e].alive
@@ -1312,14 +1314,9 @@ impl<'a> Checker<'a>
         self.tree_depth -= 1;
         if root
         {
-            for e in std::mem::take(&mut self.doomed_in_tree)
-            {
-                if self.ents[e].alive
-                {
-                    let bits = self.real(e);
-                    fail!(self, "C10", "autodespawn-leak", &["C11"], "entity {bits:#x} lost the last clone of its signal inside a reaction tree and is still there when the tree has ended (every system command boundary collects)");
-                }
-            }
+            // (entities released inside the tree are usually collected before it ends -- every system command boundary collects --
+            // but *where* collections happen is the implementation's choice: C10 only speaks about the first collection after)
+            self.doomed_in_tree.clear();
             self.flush_polled(true)?;
             if let Some(p) = self.postponed.first()
             {
